@@ -1412,6 +1412,9 @@ classes plus distinct (program, machine, code address, block class) of EAR runs"
             report_sys_failure(&mut rep, &c, d);
         }
     }
+    // 2c. a snapshot loaded while the deck plays (an SZX that puts the frame clock somewhere else): host operations
+    // take no tape time, the pulse in progress keeps its length
+    szx_during_play(o, &mut rep);
     // 3. system level: EAR under arbitrary code
     let mut rng = Rng::new(o.seed ^ 0xEA11);
     for idx in 0..o.n(27, 600) {
@@ -1428,6 +1431,76 @@ classes plus distinct (program, machine, code address, block class) of EAR runs"
     }
     rep.extra.push(("model_requests".into(), J::I((model.requests + m10.requests) as i64)));
     rep
+}
+
+fn szx_during_play(o: &Opts, rep: &mut Report) {
+    let mut rng = Rng::new(o.seed ^ 0x5211);
+    for k in 0..o.n(12, 200) as usize {
+        let m128 = k % 2 == 1;
+        let l = if m128 { 70908u64 } else { 69888 };
+        let mut e = emu(&Cfg::new(m128));
+        let mut blk = vec![0x00u8; 19];
+        blk[18] = blk.iter().fold(0, |a, b| a ^ b);
+        let mut tap = vec![19u8, 0];
+        tap.extend_from_slice(&blk);
+        let _ = e.load_tape(rustzx_core::host::Tape::Tap(VAsset::new(tap)));
+        e.play_tape();
+        let stamp = |e: &Emu| e.verif_frames_count() as u64 * l + e.verif_frame_clocks() as u64;
+        // emulated time as the sum of what every wait and every port read took (the load in between takes none)
+        let mut t: u64 = 0;
+        let load_at: u64 = 30_000 + rng.below(200_000);
+        let target: u32 = match k % 3 { 0 => rng.below(2000) as u32, 1 => 20_000 + rng.below(40_000) as u32, _ => (l as u32) - 1 - rng.below(3000) as u32 };
+        let mut loaded = false;
+        let mut level = e.verif_read_io(0x7FFE) & 0x40;
+        let mut last_edge: Option<u64> = None;
+        let mut bad: Option<String> = None;
+        while t < load_at + 400_000 && bad.is_none() {
+            if !loaded && t >= load_at {
+                let mut f = b"ZXST".to_vec();
+                f.extend_from_slice(&[1, 4, if m128 { 2 } else { 1 }, 0]);
+                f.extend_from_slice(b"SPCR");
+                f.extend_from_slice(&8u32.to_le_bytes());
+                f.extend_from_slice(&[0, 0, 0, 0, 0, 0, 0, 0]);
+                f.extend_from_slice(b"Z80R");
+                f.extend_from_slice(&37u32.to_le_bytes());
+                let mut z = [0u8; 37];
+                z[29..33].copy_from_slice(&target.to_le_bytes());
+                f.extend_from_slice(&z);
+                let _ = e.load_snapshot(rustzx_core::host::Snapshot::Szx(VAsset::new(f)));
+                loaded = true;
+            }
+            let s0 = stamp(&e);
+            e.verif_wait(9);
+            let lv = e.verif_read_io(0x7FFE) & 0x40;
+            let s1 = stamp(&e);
+            t += if s1 >= s0 { s1 - s0 } else { 0 };
+            if lv != level {
+                if let Some(le) = last_edge {
+                    let d = t - le;
+                    // pilot pulses of 2168 T, seen through steps of 9 T plus a port read (13..25 T)
+                    if !(2168 - 30..=2168 + 60).contains(&d) {
+                        bad = Some(format!("two edges {} T apart around T = {} (snapshot loaded at {}, its frame clock {})", d, t, load_at, target));
+                    }
+                }
+                last_edge = Some(t);
+                level = lv;
+            }
+        }
+        rep.eval();
+        rep.class(format!("szx during play m128={} target-class={}", m128, k % 3));
+        if let Some(b) = bad {
+            rep.violation(Violation {
+                kind: Kind::SpecViolated,
+                key: "C11/waveform/snapshot-during-play".into(),
+                what: format!("{}: pilot tone playing, an SZX snapshot is loaded: {}", if m128 { "128K" } else { "48K" }, b),
+                correspondence: "corr.C11.component (the deck is fed the T-states that pass; a host operation passes none)".into(),
+                case: J::obj(vec![("text", J::s(format!("szxplay seed={} k={}", o.seed, k)))]),
+                implementation: b,
+                expected: "every pilot pulse 2168 T (+32)".into(),
+            });
+            return;
+        }
+    }
 }
 
 /// false = stop()/rewind() as found, true = with proposed_fixes/C12-1.diff.
